@@ -24,6 +24,7 @@ RULE = (
     ' Round 5: hold chains; joined holds nested in a joined hold in the hand-built sequences.'
     ' Round 6: distinct beats that are one float; runs aborted by an exception or abandoned before a judged run.'
     ' Round 7: generators of fresh note objects, grouped rows kept as tuples.'
+    ' Round 8: empty include set, heads without tails, tails without heads.'
 )
 EXHAUSTIVE_PART = "every stream on 2 columns x 3 rows (quick) / 2 x 4 rows and 3 columns x 3 rows (thorough) x all non-raising option sets x 3 ungroup policies"
 ASSUMPTIONS = ["vmon/ref/grouping.py classifies orphans as documented"]
